@@ -129,7 +129,7 @@ func newGH(f []string) world {
 // invariants checks heap order and "handle index = position" on the real array.
 func (w *ghW) invariants(r *hx.Run, op, line string) {
 	for i := 1; i < w.h.Len(); i++ {
-		if w.h.Less(i, (i-1)/2) {
+		if w.ms.before(w.h[i].Key.p, w.h[(i-1)/2].Key.p) {
 			fail(r, "gh", op, "heap-order", fmt.Sprintf("after %s: element %d sorts before its parent %d", line, i, (i-1)/2))
 		}
 	}
